@@ -20,11 +20,6 @@ def parseArg (tok : String) : Option Arg :=
   | some n => some (.net n)
   | none => (parseRng tok).map .rng
 
-def getSet (sets : List St) (i : Nat) : St := sets.getD i []
-def setSet (sets : List St) (i : Nat) (s : St) : List St :=
-  let sets := if sets.length ≤ i then sets ++ List.replicate (i + 1 - sets.length) [] else sets
-  sets.set i s
-
 def showSet (s : St) : String := showList ((iterCidrs s).map showNet)
 
 def showVR (r : VR) : String := s!"{r.1}:{r.2.1}-{r.2.2}"
@@ -49,69 +44,43 @@ def query (a b : St) (n : Net) : String :=
     showBool (iscontiguous a), ipr, showList ((iterIpranges a).map showVR), showBool (contains a n),
     showIter a]
 
-def step (sets : List St) (fields : List String) : Option (List St × String) :=
+def parseOp (fields : List String) : Option Op :=
   match fields with
-  | ["new", i, "none"] => do
-    let i ← i.toNat?; pure (setSet sets i [], showSet [])
-  | ["new", i, "net", n] => do
-    let i ← i.toNat?; let n ← parseNet n
-    let s := newOfNet n; pure (setSet sets i s, showSet s)
-  | ["new", i, "rng", r] => do
-    let i ← i.toNat?; let r ← parseRng r
-    let s := newOfRange r; pure (setSet sets i s, showSet s)
-  | ["new", i, "set", j] => do
-    let i ← i.toNat?; let j ← j.toNat?
-    let s := newOfSet (getSet sets j); pure (setSet sets i s, showSet s)
-  | "new" :: i :: "list" :: items => do
-    let i ← i.toNat?; let items ← items.mapM parseArg
-    let s := newOfList items; pure (setSet sets i s, showSet s)
-  | ["add", i, a] => do
-    let i ← i.toNat?; let a ← parseArg a
-    let s := add (getSet sets i) a; pure (setSet sets i s, showSet s)
-  | ["rem", i, a] => do
-    let i ← i.toNat?; let a ← parseArg a
-    let s := remove (getSet sets i) a; pure (setSet sets i s, showSet s)
-  | ["upd", i, "set", j] => do
-    let i ← i.toNat?; let j ← j.toNat?
-    let s := updateSet (getSet sets i) (getSet sets j); pure (setSet sets i s, showSet s)
-  | ["upd", i, "arg", a] => do
-    let i ← i.toNat?; let a ← parseArg a
-    let s := add (getSet sets i) a; pure (setSet sets i s, showSet s)
-  | "upd" :: i :: "list" :: items => do
-    let i ← i.toNat?; let items ← items.mapM parseArg
-    let s := updateList (getSet sets i) items; pure (setSet sets i s, showSet s)
-  | ["clear", i] => do
-    let i ← i.toNat?; pure (setSet sets i [], showSet [])
+  | ["new", i, "none"] => do pure (.newNone (← i.toNat?))
+  | ["new", i, "net", n] => do pure (.newNet (← i.toNat?) (← parseNet n))
+  | ["new", i, "rng", r] => do pure (.newRng (← i.toNat?) (← parseRng r))
+  | ["new", i, "set", j] => do pure (.newSet (← i.toNat?) (← j.toNat?))
+  | "new" :: i :: "list" :: items => do pure (.newList (← i.toNat?) (← items.mapM parseArg))
+  | ["add", i, a] => do pure (.add (← i.toNat?) (← parseArg a))
+  | ["rem", i, a] => do pure (.rem (← i.toNat?) (← parseArg a))
+  | ["upd", i, "set", j] => do pure (.updSet (← i.toNat?) (← j.toNat?))
+  | ["upd", i, "arg", a] => do pure (.updArg (← i.toNat?) (← parseArg a))
+  | "upd" :: i :: "list" :: items => do pure (.updList (← i.toNat?) (← items.mapM parseArg))
+  | ["clear", i] => do pure (.clear (← i.toNat?))
   | ["pop", i, b] => do
     let i ← i.toNat?
-    if b == "-" then
-      -- the implementation raised KeyError: right exactly when the set is empty
-      pure (sets, if (getSet sets i).isEmpty then "!key" else "?pop-on-nonempty")
-    else
-      let b ← parseNet b
-      match pop (getSet sets i) b with
-      | .ok s => pure (setSet sets i s, showSet s)
-      | .error e => pure (sets, showErr e)
-  | ["compact", i] => do
-    let i ← i.toNat?
-    let s := compact (getSet sets i); pure (setSet sets i s, showSet s)
-  | ["copy", j, i] => do
-    let i ← i.toNat?; let j ← j.toNat?
-    let s := copy (getSet sets i); pure (setSet sets j s, showSet s)
+    if b == "-" then pure (.pop i none) else pure (.pop i (some (← parseNet b)))
+  | ["compact", i] => do pure (.compact (← i.toNat?))
+  | ["copy", j, i] => do pure (.copy (← j.toNat?) (← i.toNat?))
   | ["bin", k, i, j, o] => do
-    let k ← k.toNat?; let i ← i.toNat?; let j ← j.toNat?
-    let a := getSet sets i; let b := getSet sets j
-    let s ← match o with
-      | "or" => some (union a b)
-      | "and" => some (intersection a b)
-      | "sub" => some (difference a b)
-      | "xor" => some (symmetricDifference a b)
+    let o ← match o with
+      | "or" => some BinOp.or | "and" => some BinOp.and | "sub" => some BinOp.sub | "xor" => some BinOp.xor
       | _ => none
-    pure (setSet sets k s, showSet s)
+    pure (.bin (← k.toNat?) (← i.toNat?) (← j.toNat?) o)
+  | _ => none
+
+def step (sets : List St) (fields : List String) : Option (List St × String) :=
+  match fields with
   | ["q", i, j, n] => do
     let i ← i.toNat?; let j ← j.toNat?; let n ← parseNet n
     pure (sets, query (getSet sets i) (getSet sets j) n)
-  | _ => none
+  | _ => do
+    let op ← parseOp fields
+    let (sets', touched, err) := stepOp sets op
+    match err with
+    | none => pure (sets', showSet (getSet sets' touched))
+    | some .key => pure (sets', "!key")
+    | some _ => pure (sets', "?pop-on-nonempty")
 
 def run : List St → List String → List String → Option (List String)
   | _, [], acc => some acc.reverse
